@@ -178,6 +178,64 @@ def builder_fn_early(L, name):
     return next((f for f in L.fn_list if f['name'] == name and 'CodeBuilder' in f['path']), None)
 
 
+def operand(td):
+    return ('#operand', td)
+
+
+def base_stubs():
+    return {
+        'typeutil::is_compatible_enum': lambda a: ('Ok', compat_enum(a[0], a[1])),
+        'Class::is_derived_from': lambda a: derived(a[0], a[1]),
+    }
+
+
+def dyn_interp(L):
+    """Interpreter for the dynamic emitters of tir::builder: operands are ('#operand', TypeDesc[, rvalue ctor])."""
+    stubs4 = base_stubs()
+    stubs4.update({
+        'type_desc': lambda a: a[0][1] if isinstance(a[0], tuple) and a[0][0] == '#operand' else (_ for _ in ()).throw(aeval.Undecided('type_desc of %r' % (a[0],))),
+        'builder::ensure_concrete_string': lambda a: operand(after_ensure(a[0][1])),
+        'CodeBuilder::emit_result': lambda a: operand(('Concrete', a[1])),
+        'to_string': lambda a: ('#str',),
+        'qualified_name': lambda a: ('#str',),
+        'qualified_cxx_name': lambda a: ('#str',),
+    })
+    return aeval.Interp(L, stubs=stubs4), stubs4
+
+
+OPS = {'Arith': ['Add', 'Sub', 'Mul', 'Div', 'Rem'], 'Bitwise': ['And', 'Xor', 'Or'], 'Shift': ['RightShift', 'LeftShift'],
+       'Comparison': ['Equal', 'NotEqual', 'LessThan', 'LessThanEqual', 'GreaterThan', 'GreaterThanEqual']}
+UNOPS = (('Arith', ['Minus', 'Plus']), ('Bitwise', ['Not']), ('Logical', ['Not']))
+EMIT_BINARY = 'tir::builder::CodeBuilder::emit_binary_expression'
+EMIT_UNARY = 'tir::builder::CodeBuilder::emit_unary_expression'
+VISIT_BUILTIN = '<tir::builder::CodeBuilder as typedexpr::ExpressionVisitor>::visit_builtin_call'
+
+
+def dyn_binary(I4, cls, op, l, r):
+    """result TypeKind term, None (rejected) or 'undecided:..' for a dynamic binary expression."""
+    try:
+        got = I4.call(EMIT_BINARY, [('#self',), (cls, (op,)), operand(l), operand(r), ('#range',)], 0)
+        return got[1][1][1] if got[0] == 'Ok' else None
+    except aeval.Undecided as e:
+        return 'undecided:%s' % e
+
+
+def dyn_unary(I4, cls, op, t):
+    try:
+        got = I4.call(EMIT_UNARY, [('#self',), (cls, (op,)), operand(t), ('#range',)], 0)
+        return got[1][1][1] if got[0] == 'Ok' else None
+    except aeval.Undecided as e:
+        return 'undecided:%s' % e
+
+
+def dyn_builtin(I4, kind, args):
+    try:
+        got = I4.call(VISIT_BUILTIN, [('#self',), kind, ('#vec',) + tuple(operand(a) for a in args), ('#range',)], 0)
+        return got[1][1][1] if got[0] == 'Ok' else None
+    except aeval.Undecided as e:
+        return 'undecided:%s' % e
+
+
 def run(ck):
     F = ck.facts
     L = F.lib
@@ -267,18 +325,7 @@ def run(ck):
         ck.floor('R5.3', 0, 1, 'fn deduce_type')
 
     # ---- R5.4 operator admissibility ---------------------------------------------------------------------------
-    def operand(td):
-        return ('#operand', td)
-    stubs4 = dict(stubs)
-    stubs4.update({
-        'type_desc': lambda a: a[0][1] if isinstance(a[0], tuple) and a[0][0] == '#operand' else (_ for _ in ()).throw(aeval.Undecided('type_desc of %r' % (a[0],))),
-        'builder::ensure_concrete_string': lambda a: operand(after_ensure(a[0][1])),
-        'CodeBuilder::emit_result': lambda a: operand(('Concrete', a[1])),
-        'to_string': lambda a: ('#str',),
-        'qualified_name': lambda a: ('#str',),
-        'qualified_cxx_name': lambda a: ('#str',),
-    })
-    I4 = aeval.Interp(L, stubs=stubs4)
+    I4, stubs4 = dyn_interp(L)
     eb = 'tir::builder::CodeBuilder::emit_binary_expression'
     eu = 'tir::builder::CodeBuilder::emit_unary_expression'
     ops = {'Arith': ['Add', 'Sub', 'Mul', 'Div', 'Rem'], 'Bitwise': ['And', 'Xor', 'Or'], 'Shift': ['RightShift', 'LeftShift'],
